@@ -12,7 +12,8 @@ RULE = ("Hypothesis draws W in [1,12], N in [1,6], 1..6 series with lengths T_i 
         "strided view, writable or read-only. Oracle: an independent construction expected[i, jN:(j+1)N] = series[i+j] compared "
         "as uint64 views; multi-series result must equal the row-wise concatenation of the per-series expectations; "
         "split_joint_labels + pad_missing_labels must return one list per series of the original length whose inner parts "
-        "concatenate to the input. Non-trivial = W>=2 and some T_i>W (windows really overlap); distinct by SHA-1 of the case.")
+        "concatenate to the input. Non-trivial = W>=2 and some T_i>W (windows really overlap); distinct by SHA-1 of the case."
+        ' Layouts include row-strided (recordings interleaved in one buffer) and negative row stride; cases run under ambient DEBUG logging, floating-point errors raised, warnings as errors, the multiprocessing switch set, and in a python -O process.')
 ASSUMPTIONS = ["float64 inputs only: bit-exactness is stated for doubles; other dtypes are converted by NumPy and are outside the property"]
 
 SPECIAL_BITS = [0x7FF8000000000000, 0x7FF0000000000001, 0xFFF8DEADBEEF0001, 0x7FF0000000000000, 0xFFF0000000000000,
@@ -33,7 +34,7 @@ def stacking_case(draw):
             for _ in range(nser)]
     seed = draw(st.integers(0, 2 ** 32 - 1))
     special_rate = draw(st.sampled_from([0.0, 0.1, 0.5, 1.0]))
-    layout = draw(st.sampled_from(["C", "C", "F", "strided", "readonly"]))
+    layout = draw(st.sampled_from(["C", "C", "F", "strided", "readonly", "row_strided", "row_reversed"]))
     small = sum(lens) * N <= 24
     explicit = None
     if small:
@@ -70,6 +71,14 @@ def build_series(case):
             a = big[1::2, ::2]
         elif lay == "readonly":
             a.setflags(write=False)
+        elif lay == "row_strided":
+            # two recordings multiplexed row by row in one buffer: each is contiguous along a row, the rows are two apart
+            big = np.zeros((L * 2, case["N"]), dtype=np.float64)
+            big[si % 2::2] = a
+            big[(si + 1) % 2::2] = a[::-1]                 # (the other recording; copied, never computed: see `ambient`)
+            a = big[si % 2::2]
+        elif lay == "row_reversed":
+            a = np.ascontiguousarray(a[::-1])[::-1]          # negative row stride
         if lay == "C" and case.get("reuse_buffers"):
             a = buffers.reuse(f"C10.series.{si}", a)     # the same array object as in earlier cases, refilled in place
         out.append(a)
@@ -197,7 +206,7 @@ def execute(case, t):
 
 SUBCHECKS = [
     SubCheck(name="stacking_bits_and_split_pad", strategy=stacking_case, execute=execute,
-             ambient=("debug_logging", "fp_errors_raise", "warnings_error"),     # a pure copy: no arithmetic, nothing to warn about
+             ambient=("debug_logging", "fp_errors_raise", "warnings_error", "mp_env"),     # a pure copy: no arithmetic, nothing to warn about
              budget={"quick": 2400, "thorough": 64000}, shards={"quick": 4, "thorough": 16},
-             modes=["jit"], min_nontrivial_fraction=0.5),
+             modes=["jit", "pyopt"], min_nontrivial_fraction=0.5),
 ]
